@@ -282,7 +282,16 @@ class Ctx:
             at = int(rej.group(1)) if rej else None
             lines = open(trace).readlines()
             ctx_ev = [json.loads(l) for l in lines[max(0, (at or 1) - 4):(at or 1)]] if at else []
-            detail = "%s: trace of %d events rejected by %s at event %s: %s" % (what, n_events, module, at, (rej.group(2)[:400] if rej else (st.get("spec_violation") or out[-600:])))
+            if not rej:
+                # no REJECTED line: TLC stopped with an evaluation error (e.g. a recorded symbol that no specification table
+                # contains); the depth reached tells the event
+                m2 = re.search(r"Error: (.*?)(?:\n\n|\Z)", out, re.S)
+                d2 = re.findall(r"Progress\((\d+)\)|depth of the complete state graph search is (\d+)", out)
+                at = max([int(a or b) for a, b in d2], default=None)
+                why = (st.get("spec_violation") or (m2.group(1)[:500] if m2 else out[-600:]))
+            else:
+                why = rej.group(2)[:400]
+            detail = "%s: trace of %d events rejected by %s at event %s: %s" % (what, n_events, module, at, why)
             keep = os.path.join(VERIF, "replays", "%s-%s.ndjson" % (self.prop, module))
             self.violation(detail, {"k": "trace", "module": module, "trace_file": trace, "kept_trace": keep, "constants": st.get("constants"), "invariants": st.get("invariants"),
                                     "rejected_at": at, "last_events": ctx_ev}, cmd="trace", mode=module)
